@@ -43,7 +43,7 @@ class _Dev(object):
 
 
 class ScriptFrontend(nfc.clf.ContactlessFrontend):
-    def __init__(self, clock, role, brty, frames, atr_req=None, dep_req=None, steps=400, jam=None):
+    def __init__(self, clock, role, brty, frames, atr_req=None, dep_req=None, steps=400, jam=None, ping=None):
         # no device: the attributes ContactlessFrontend.__init__ would create
         self.device = _Dev()
         self.lock = threading.Lock()
@@ -58,6 +58,8 @@ class ScriptFrontend(nfc.clf.ContactlessFrontend):
         self.listened = False
         self.jam = jam          # (k, q): when the script is used up the peer keeps sending corrupted frames, each
         self.jammed = 0         # max(k, granted // q) ms after the call (silence if the granted time-out is shorter)
+        self.ping = ping        # frames the peer goes on sending for ever once the script is used up (one per ms, if a
+        self.npings = 0         # time-out of at least 1 ms was granted)
 
     # -- what the stack would hear on the air -------------------------------------------------
     def _tick(self):
@@ -103,6 +105,13 @@ class ScriptFrontend(nfc.clf.ContactlessFrontend):
         self._tick()
         self.sent.append(None if send_data is None else bytes(send_data))
         self.clock.now += 0.001
+        if not self.frames and self.ping is not None:
+            if (timeout or 0) >= 0.001:
+                f = self.ping[self.npings % len(self.ping)]
+                self.npings += 1
+                return bytearray(f)
+            self.clock.now += max(timeout or 0, 0.001)
+            raise nfc.clf.TimeoutError('sim: no time to receive a frame')
         if not self.frames:
             if self.jam is not None:
                 k, q = self.jam
@@ -138,11 +147,11 @@ class installed(object):
         nfc.dep.time, llcmod.time, nfc.clf.time, nfc.dep.os = self.saved
 
 
-def run_connect(role, brty, frames, atr_req=None, dep_req=None, on_connect=None, steps=400, jam=None):
+def run_connect(role, brty, frames, atr_req=None, dep_req=None, on_connect=None, steps=400, jam=None, ping=None):
     """ContactlessFrontend.connect(llcp=...) against the scripted peer.
     -> (observation, frontend).  observation: 'ret <value>' | 'exc <class>: <text>'"""
     clock = Clock()
-    clf = ScriptFrontend(clock, role, brty, frames, atr_req, dep_req, steps, jam)
+    clf = ScriptFrontend(clock, role, brty, frames, atr_req, dep_req, steps, jam, ping)
     info = {}
 
     def terminate():
